@@ -511,6 +511,16 @@ func (p *Path) makeSlice(in ssa.Instruction, et types.Type, ln, cp *smt.Term) Va
 	}
 	n, ok := cp.Uint64()
 	if !ok {
+		// a small set of feasible sizes is split into cases
+		if c, okc := p.TryConcretize(cp, 16); okc {
+			cp = c
+			if l, okl := p.TryConcretize(ln, 16); okl {
+				ln = l
+			}
+			n, ok = cp.Uint64()
+		}
+	}
+	if !ok {
 		return p.makeSymSlice(et, ln, cp)
 	}
 	if n > 1<<20 {
@@ -626,6 +636,10 @@ func (p *Path) Append(s Slice, extra []Val, et types.Type) Slice {
 		if a.Elems == nil {
 			return p.symAppend(s, a, extra, et)
 		}
+		s.Len = p.ConcretizeTerm(s.Len, 4096)
+		s.Off = p.ConcretizeTerm(s.Off, 4096)
+		s.Cap = p.ConcretizeTerm(s.Cap, 4096)
+		newLen = smt.BVAdd(s.Len, i64(n))
 		fits := smt.BVUle(newLen, s.Cap)
 		if p.Decide(fits) {
 			ln, ok1 := s.Len.Uint64()
